@@ -103,4 +103,89 @@ theorem sessionA_sticky (extra : Nat) (σ : BState) (buf : Bytes) (term : Term)
     | resp r => exact absurd rfl (h r)
     | _ => simp only [List.replicate_succ]; rw [ih']; rfl
 
+/-! ### blocking connection -/
+
+theorem recvLoopS_nil (fuel : Nat) (σ : BState) (b : SBuf) (term : Term) (hcap : ¬ b.cap < b.data.length) :
+    recvLoopS (fuel + 1) σ b [] term =
+      match feed σ b.data with
+      | (σ', rest, .done r) => (.resp r, { b with data := rest }, [], σ')
+      | (σ', rest, .invalid) => (.invalid, { b with data := rest }, [], σ')
+      | (σ', rest, .panic) => (.panic, { b with data := rest }, [], σ')
+      | (σ', rest, .pending) => (termItem term σ' rest, { b with data := rest }, [], σ') := by
+  rw [recvLoopS]
+  simp only [hcap, if_false]
+  rcases feed σ b.data with ⟨σ', rest, out⟩
+  cases out <;> simp [readChunk]
+
+/-- **sticky end (blocking)**: the same for the fixed, doubling buffer — the valid prefix left behind
+is what `feed` left, and parsing it again changes nothing -/
+theorem recvLoopS_sticky (f1 f2 : Nat) (σ : BState) (b : SBuf) (term : Term) (hcap : ¬ b.cap < b.data.length)
+    (h : ∀ r, (recvLoopS (f1 + 1) σ b [] term).1 ≠ .resp r) :
+    recvLoopS (f2 + 1) (recvLoopS (f1 + 1) σ b [] term).2.2.2 (recvLoopS (f1 + 1) σ b [] term).2.1 [] term =
+      recvLoopS (f1 + 1) σ b [] term := by
+  have hid := feed_idem σ b.data
+  have hnp := feed_no_panic σ b.data
+  have hrl := feed_rest_length σ b.data
+  have hv := recvLoopS_nil f1 σ b term hcap
+  rcases hf : feed σ b.data with ⟨σ', rest, out⟩
+  rw [hf] at hid hv hnp hrl
+  simp only at hrl
+  have hcap' : ¬ ({ b with data := rest } : SBuf).cap < ({ b with data := rest } : SBuf).data.length := by
+    simp only; omega
+  cases out with
+  | done r => rw [hv] at h; exact absurd rfl (h r)
+  | panic => exact absurd rfl hnp
+  | invalid =>
+    simp only at hv
+    rw [hv]
+    simp only
+    rw [recvLoopS_nil f2 σ' { b with data := rest } term hcap']
+    simp only
+    rw [hid (Or.inr rfl)]
+  | pending =>
+    simp only at hv
+    rw [hv]
+    simp only
+    rw [recvLoopS_nil f2 σ' { b with data := rest } term hcap']
+    simp only
+    rw [hid (Or.inl rfl)]
+
+/-- every further call of a blocking session after its end repeats the end -/
+theorem sessionS_sticky (extra : Nat) (σ : BState) (b : SBuf) (term : Term) (hcap : ¬ b.cap < b.data.length)
+    (h : ∀ r, (recvS σ b [] term).1 ≠ .resp r) :
+    sessionS (extra + 1) extra σ b [] term = List.replicate (extra + 1) (recvS σ b [] term).1 := by
+  induction extra generalizing σ b with
+  | zero =>
+    rw [sessionS]
+    rcases hr : recvS σ b [] term with ⟨it, b', cs', σ'⟩
+    rw [hr] at h
+    cases it with
+    | resp r => exact absurd rfl (h r)
+    | _ => rfl
+  | succ e ih =>
+    rw [sessionS]
+    unfold recvS at h ⊢
+    have hs := recvLoopS_sticky (scriptLen ([] : List Bytes)) (scriptLen ([] : List Bytes)) σ b term hcap h
+    have hnil := recvLoopS_nil (scriptLen ([] : List Bytes)) σ b term hcap
+    have hrl := feed_rest_length σ b.data
+    have hcs : (recvLoopS (scriptLen ([] : List Bytes) + 1) σ b [] term).2.2.1 = [] ∧
+        ¬ (recvLoopS (scriptLen ([] : List Bytes) + 1) σ b [] term).2.1.cap <
+          (recvLoopS (scriptLen ([] : List Bytes) + 1) σ b [] term).2.1.data.length := by
+      rw [hnil]
+      rcases hf : feed σ b.data with ⟨σ', rest, out⟩
+      rw [hf] at hrl
+      simp only at hrl
+      cases out <;> exact ⟨rfl, by simp only; omega⟩
+    rcases hr : recvLoopS (scriptLen ([] : List Bytes) + 1) σ b [] term with ⟨it, b', cs', σ'⟩
+    rw [hr] at h hs hcs
+    simp only at hs hcs
+    obtain ⟨hcs, hcap'⟩ := hcs
+    subst hcs
+    have ih' := ih σ' b' hcap' (by unfold recvS; rw [hs]; exact h)
+    unfold recvS at ih'
+    rw [hs] at ih'
+    cases it with
+    | resp r => exact absurd rfl (h r)
+    | _ => simp only [List.replicate_succ]; rw [ih']; rfl
+
 end Mpd.Conn
